@@ -25,30 +25,16 @@ mod registry;
 mod sexec;
 mod simfs;
 mod sprog;
-mod supervisor;
 
 #[global_allocator]
 static ALLOC: common::CapAlloc = common::CapAlloc;
 
 fn main() {
-    let args: Vec<String> = std::env::args().collect();
-    let code = match args.get(1).map(|s| s.as_str()) {
-        Some("check") => supervisor::check(&args[2], common::Tier::parse(args.get(3).map(|s| s.as_str()).unwrap_or("quick"))),
-        Some("worker") => supervisor::worker(&args),
-        Some("replay") => supervisor::replay(&args[2]),
-        Some("exec-plan") => supervisor::exec_plan(&args[2], &args[3]),
-        Some("gen-plan") => {
-            // dbsim gen-plan <Cxx> <tier> <seed> <run>: prints the plan a worker would execute
-            let def = registry::find(&args[2]).expect("unknown check");
-            let plan = (def.generate)(args[4].parse().unwrap(), args[5].parse().unwrap(), common::Tier::parse(&args[3]));
-            println!("{}", serde_json::to_string(&plan).unwrap());
-            0
-        }
-        Some("selftest") => supervisor::selftest(&args[2], 40),
-        _ => {
-            eprintln!("usage: dbsim check|worker|replay|exec-plan|selftest ...");
-            2
-        }
+    let eng = common::Engine {
+        name: "dbsim",
+        find: registry::find,
+        simulated_time: "no clock exists in the storage/database layer; progress is counted in simulated file-system calls (counters fs.*)",
+        alloc_cap: 96 << 20,
     };
-    std::process::exit(code);
+    std::process::exit(simcore::harness::main_dispatch(&eng));
 }
